@@ -135,6 +135,10 @@ func DiffDumps(a, b *Dump) string {
 		if ia.Memory != ib.Memory {
 			return fmt.Sprintf("index %s memory config differs: before=%s after=%s", name, ia.Memory, ib.Memory)
 		}
+		if ia.Prec == "int8" && ia.AbsMax != ib.AbsMax {
+			// the range decides how every later vector is stored (values beyond it are clipped): it is state
+			return fmt.Sprintf("index %s (int8) quantiser range differs: before=%g after=%g", name, ia.AbsMax, ib.AbsMax)
+		}
 		if ia.Count != ib.Count || !reflect.DeepEqual(ia.IDs, ib.IDs) {
 			return fmt.Sprintf("index %s ids differ: before count=%d %v after count=%d %v", name, ia.Count, ia.IDs, ib.Count, ib.IDs)
 		}
